@@ -478,8 +478,9 @@ def check_module(run, rng, model, m, tier, depth):
                 run.violation("correspondence:OpenTypeMatrix.select_flat", {"module": m["text"], "options": m["opts"], "identifier": id_text(kind, idv), "command_line": l, "c": o,
                                                                              "model_matrix_selector": mx, "what": "generated selector differs from select_flat on the model's dense matrix"},
                               no_input=True)
-            elif orc and intlike:
-                # oracle, Python's own reading of the module it wrote: the first object of the set with this identifier, its types in the members' columns
+            if orc and intlike and o != "CRASH":
+                # oracle, evaluated on the C output alone against Python's own reading of the module it wrote:
+                # the first object of the set with this identifier, its types in the members' columns
                 pyrow = next((r for r in spec if r["id"] == idv), None)
                 got = [x.split(":")[1] for x in o.split()] if ":" in o and not o.startswith("0:") else None
                 want_py = mtypes(m, pyrow) if pyrow is not None else None
@@ -488,6 +489,10 @@ def check_module(run, rng, model, m, tier, depth):
                                                            "what": "the selector returns %s, the object set as written pairs the identifier with %s" % (got, want_py)})
         run.case(fs + " " + l)
         run.count("sel_" + ("nonminimal" if not orc else "row" if row else "norow"))
+        if o == "CRASH":
+            run.violation("crash:selector", {"module": m["text"], "options": m["opts"], "identifier": id_text(kind, idv) if not isinstance(idv, bytes) else idv.hex(), "command_line": l,
+                                             "what": "the generated selector crashed (walk beyond the table, or an empty cell dereferenced)", "stderr_tail": crashes.get(probe.index((idv, row, orc)), "")[-2500:]})
+            continue
         f = [x.split(":") for x in o.split()] if ":" in o else []
         ok_shape = len(f) == nmem and all(len(x) == 3 for x in f) and len(set(x[0] for x in f)) == 1
         replay = {"module": m["text"], "options": m["opts"], "identifier": id_text(kind, idv) if not isinstance(idv, bytes) else "(contents octets %s)" % (idv.hex() or "empty"),
